@@ -218,7 +218,7 @@ def model_selftest_jobs(chk, ex):
     of the invariants), and every probe state must be reachable."""
     futs = {}
     for dev, start in (("ChildReturnsErr", True), ("ExecveNegErrno", True), ("EnvTestInverted", False), ("WaitHoldsPipes", True),
-                       ("TryWaitNoCache", True)):
+                       ("TryWaitNoCache", True), ("EintrNotRetried", True)):
         futs[dev] = ex.submit(_selftest_dev, chk, dev, start)
     for dev in ("ParentKeepsOutWrite", "ChildKeepsInWrite"):
         futs["flow:" + dev] = ex.submit(_selftest_flow, chk, dev)
@@ -420,17 +420,43 @@ def execute(job):
         cmd += ["--", os.path.join(job["bindir"], "spawnd"), "plan.json", evf]
     with open(os.path.join(rundir, "drv_in")) as fi, open(os.path.join(rundir, "drv_out"), "w") as fo, \
             open(os.path.join(rundir, "drv_err"), "w") as fe:
+        # the tracer's own watchdog turns a hang into a `timeout` event; should the tracer itself get stuck
+        # the whole tree is killed from here (PTRACE_O_EXITKILL) and the run is recorded as timed out too:
+        # a hang of the code under test is data, never a tool error
+        limit = max(30, 3 * job.get("timeout_ms", 4000) // 1000)
+        pr = subprocess.Popen(cmd, cwd=rundir, env=dict(PENV), stdin=fi, stdout=fo, stderr=fe, start_new_session=True)
+        killed = False
         try:
-            p = subprocess.run(cmd, cwd=rundir, env=dict(PENV), stdin=fi, stdout=fo, stderr=fe, timeout=60)
+            pr.wait(timeout=limit)
         except subprocess.TimeoutExpired:
-            raise core.ToolError("tracer did not finish within 60 s in %s" % rundir)
+            killed = True
+            try:
+                os.killpg(pr.pid, 9)
+            except OSError:
+                pass
+            pr.wait()
+        p = pr
         # this process shares the open file descriptions the driver started with: their offsets tell
         # whether an inheriting child worked on these very descriptions
         inh_pos = [os.lseek(f.fileno(), 0, os.SEEK_CUR) for f in (fi, fo, fe)]
-    if p.returncode not in (0, 4):
+    if killed:
+        with open(log, "a") as fh:
+            fh.write('\n{"ev":"timeout","alive":[],"by":"check"}\n{"ev":"end","root_status":-1,"root_exited":false,"timeout":true,"inj_fired":false,"alive_at_root_exit":[]}\n')
+    elif p.returncode not in (0, 4):
         raise core.ToolError("spawntrace failed rc=%d in %s: %s" % (p.returncode, rundir, open(os.path.join(rundir, "drv_err")).read()[-500:]))
-    tr = [json.loads(l) for l in open(log)]
-    dv = [json.loads(l) for l in open(evf)] if os.path.exists(evf) else []
+    tr = []
+    for l in open(log):
+        try:
+            if l.strip():
+                tr.append(json.loads(l))
+        except ValueError:
+            pass                # a line cut off when the tracer was killed
+    dv = []
+    for l in (open(evf) if os.path.exists(evf) else []):
+        try:
+            dv.append(json.loads(l))
+        except ValueError:
+            pass
     dumps = {}
     import glob as _glob
     for dpath in _glob.glob(helper + ".*.dump"):
@@ -539,6 +565,7 @@ def info_from_driver(idx, c, dv, rnd=1):
     return {"dio": [fdent(drv["fds"], i) for i in range(3)],
             "raw": [fdent(drv["fds"], RAWFD[i]) if c["io"][i] == "raw" else dict(NOFD) for i in range(3)],
             "pipes": pipes, "pgrp": drv["pgrp"], "waited": waited, "ios": io_events_of_driver(dv, rnd),
+            "before": [{"fd": e["fd"], "link": e["link"], "cloexec": e["cloexec"]} for e in drv["fds"]],
             "pfds": [{"fd": e["fd"], "link": e["link"], "acc": e["acc"]} for e in (ret or {}).get("fds", [])] if ret and ret.get("res") == "ok" else []}
 
 
@@ -567,6 +594,7 @@ def info_from_tracer(idx, c, tr):
     return {"dio": [fdent(begin["fds"], i) for i in range(3)],
             "raw": [fdent(begin["fds"], RAWFD[i]) if c["io"][i] == "raw" else dict(NOFD) for i in range(3)],
             "pipes": pipes, "pgrp": begin["pgrp"], "waited": waited, "ios": ios,
+            "before": [{"fd": e["fd"], "link": e["link"], "cloexec": e["cloexec"]} for e in begin["fds"]],
             "pfds": [{"fd": e["fd"], "link": e["link"], "acc": e["acc"]} for e in retfds["fds"]] if (rmark and retfds) else []}
 
 
@@ -579,7 +607,7 @@ def fdent(table, fd):
 
 def assemble(idx, c, tr, info, dump):
     """merge tracer log, driver-reported facts and helper dump into the event list SpawnTrace.tla reads"""
-    facts = {"dio": info["dio"], "raw": info["raw"], "pipes": info["pipes"], "pgrp": info["pgrp"], "pfds": info["pfds"],
+    facts = {"dio": info["dio"], "raw": info["raw"], "pipes": info["pipes"], "pgrp": info["pgrp"], "pfds": info["pfds"], "before": info["before"],
              "pos": info.get("pos", [{"inh": 0, "raw": 0}] * 3), "nprog": info.get("nprog", 0)}
     waited = info["waited"]
     out = [{"ev": "reset", "run": idx, "cfg": c, "facts": facts}]
@@ -732,6 +760,9 @@ def signature(plan, variant, clause, verdict):
     """identity of a violation: the clause, the steps that failed in that run (side/step), the build"""
     steps = sorted({"%s/%s" % ("caller" if f["proc"] == "P" else "child", f["step"]) for f in verdict.get("failed", [])})
     sig = {"clause": clause, "failed": "+".join(steps) if steps else "none", "start": VARIANTS[variant][1]}
+    if clause == "ErrMeansNoExec":
+        # which failure of the sync-pipe read (0 = short read) - a different errno is a different finding
+        sig["errno"] = "+".join(sorted({str(f["errno"]) for f in verdict.get("failed", []) if f["step"] == "read"})) or "none"
     if plan.get("round", 1) == 2:
         sig["respawn"] = plan["cfg"].get("respawn")
     if plan.get("flow"):
@@ -779,7 +810,7 @@ def run(tier):
         plans = [plans[k] for k in sorted(plans)]
         if not plans:
             raise core.ToolError("Spawn_MC generated no plan")
-        if any(p["viol"] for p in plans):
+        if any(set(p["viol"]) - ({"ErrMeansNoExec"} if (p["fault"]["sys"] == "read" and p["fault"]["err"] != 4) else set()) for p in plans):
             raise core.ToolError("model inconsistent: plan with violated clauses although AbsHolds passed")
         round2 = {json.dumps([p["cfg"], p["fault"]], sort_keys=True): p for p in plans if p.get("round", 1) == 2}
         plans = [p for p in plans if p.get("round", 1) == 1]
